@@ -2,12 +2,30 @@
 import importlib
 
 REGISTRY = {
+    "C01": {"engine": "sim.world", "level": "exploration",
+            "tiers": {"quick": {"runs": 480, "wall": 300}, "thorough": {"runs": 12000, "wall": 3000}}},
     "C09": {"engine": "sim.bufsim", "level": "exploration",
             "tiers": {"quick": {"runs": 1600, "wall": 240}, "thorough": {"runs": 60000, "wall": 2400}}},
     "C10": {"engine": "sim.bufsim", "level": "exploration",
             "tiers": {"quick": {"runs": 1600, "wall": 240}, "thorough": {"runs": 60000, "wall": 2400}}},
     "C11": {"engine": "sim.bufsim", "level": "exploration",
             "tiers": {"quick": {"runs": 1600, "wall": 240}, "thorough": {"runs": 60000, "wall": 2400}}},
+}
+
+_T = "deterministic simulation: seeded search over operation / fault histories executed against the real code, "
+META = {
+    "C01": {"technique": _T + "population-world simulator with value/storage fingerprints of every party after every event (non-interference) and clone-faithfulness model",
+            "design_ref": "DESIGN.md 4 (C01)", "level_text": "seeded exploration of clone/learn/mutate/select/discard/restore histories over all 11 algorithms and 5 observation families; every event is followed by a bystander check over all live agents and ghosts; evidence, not proof",
+            "level_note": "CPU only; tiny networks; batches are synthetic (drawn from the spaces) but shaped by the real Transition/ReplayBuffer; bit-equality relies on one torch thread"},
+    "C09": {"technique": _T + "buffer op-history simulator with a Python-list reference model and id-carrying transitions",
+            "design_ref": "DESIGN.md 4 (C09)", "level_text": "seeded exploration of add/sample/clear histories with widths biased to the wrap-around edge, for the single- and multi-agent buffer and 5 observation kinds; reference model checked after every op",
+            "level_note": "content is read back through the public sample() API; float32 ids are exact below 2**22"},
+    "C10": {"technique": _T + "scripted vector transition stream fed through the real n-step and 1-step buffers, window-scan reference model",
+            "design_ref": "DESIGN.md 4 (C10)", "level_text": "seeded exploration of (n, gamma, envs, capacity) x terminal-placement patterns incl. first/middle/last slot, consecutive and staggered ends, wrap-around",
+            "level_note": "the 'window may be cut when another environment ends' allowance of the statement is encoded in the oracle"},
+    "C11": {"technique": _T + "prioritised-buffer op-history simulator with injected stratum-edge variates (buggify) and a linear prefix-scan reference",
+            "design_ref": "DESIGN.md 4 (C11)", "level_text": "seeded exploration of add/update/sample interleavings with tiny/huge/repeated priorities and uniform variates forced to 0, 1-2**-24 and prefix-sum boundaries",
+            "level_note": "variates are injected through a proxy for the name torch in agilerl.components.replay_buffer; only values a real float32 torch.rand can return"},
 }
 
 _cache = {}
